@@ -3,7 +3,6 @@
 pub mod spec;
 pub mod util;
 pub mod c07;
-pub mod scratch;
 pub mod c06;
 pub mod c03;
 pub mod c04;
